@@ -210,6 +210,17 @@ namespace awkward {
               valid_when_ == t->valid_when()  &&
               lsb_order_ == t->lsb_order());
     }
+    else if (ByteMaskedForm* t = dynamic_cast<ByteMaskedForm*>(other.get())) {
+      // slicing turns a BitMaskedArray into a ByteMaskedArray (or leaves it alone when
+      // the slice is the whole array): for a virtual array the two are the same thing
+      return (compatibility_check  &&
+              content_.get()->equal(t->content(),
+                                    check_identities,
+                                    check_parameters,
+                                    check_form_key,
+                                    compatibility_check)  &&
+              valid_when_ == t->valid_when());
+    }
     else {
       return false;
     }
